@@ -7,6 +7,7 @@ package main
 // parsing), plus the FIFO barrier used to decide absence.
 
 import (
+	"flag"
 	"fmt"
 	"net"
 	"os"
@@ -16,6 +17,8 @@ import (
 	"strings"
 	"sync"
 	"time"
+
+	"github.com/urfave/cli/v2"
 )
 
 type labListenCfg struct {
@@ -42,6 +45,7 @@ type labCfg struct {
 	Routes        []labRouteCfg  `json:"route,omitempty"`
 	Hosts         [][2]string    `json:"hosts,omitempty"`
 	GlobalHosts   [][2]string    `json:"global_hosts,omitempty"`
+	More          []labCfg       `json:"more_services,omitempty"` // further entries under proxies: (their GlobalHosts / More are ignored)
 }
 
 func yq(s string) string { return "'" + strings.ReplaceAll(s, "'", "''") + "'" }
@@ -49,9 +53,24 @@ func yq(s string) string { return "'" + strings.ReplaceAll(s, "'", "''") + "'" }
 func (c labCfg) YAML() string {
 	var sb strings.Builder
 	sb.WriteString("admin:\n  addr: \"\"\nproxies:\n")
+	c.serviceYAML(&sb)
+	for _, m := range c.More {
+		m.serviceYAML(&sb)
+	}
+	if len(c.GlobalHosts) > 0 {
+		sb.WriteString("hosts:\n")
+		for _, h := range c.GlobalHosts {
+			sb.WriteString("- name: " + yq(h[0]) + "\n  ip: " + h[1] + "\n")
+		}
+	}
+	return sb.String()
+}
+
+func (c labCfg) serviceYAML(sbp *strings.Builder) {
+	sb := sbp
 	sb.WriteString("- name: " + yq(c.Name) + "\n")
 	if c.DialogTimeout > 0 {
-		fmt.Fprintf(&sb, "  dialogTimeout: %d\n", c.DialogTimeout)
+		fmt.Fprintf(sb, "  dialogTimeout: %d\n", c.DialogTimeout)
 	}
 	if c.Keep != "" {
 		sb.WriteString("  keepNextHopRoute: " + yq(c.Keep) + "\n")
@@ -60,10 +79,10 @@ func (c labCfg) YAML() string {
 	for _, l := range c.Listens {
 		sb.WriteString("  - address: " + l.Addr + "\n")
 		if l.UDPPort > 0 {
-			fmt.Fprintf(&sb, "    udp-port: %d\n", l.UDPPort)
+			fmt.Fprintf(sb, "    udp-port: %d\n", l.UDPPort)
 		}
 		if l.TCPPort > 0 {
-			fmt.Fprintf(&sb, "    tcp-port: %d\n", l.TCPPort)
+			fmt.Fprintf(sb, "    tcp-port: %d\n", l.TCPPort)
 		}
 		if l.NoReceived != "" {
 			sb.WriteString("    no-received: " + l.NoReceived + "\n")
@@ -95,13 +114,6 @@ func (c labCfg) YAML() string {
 			sb.WriteString("  - name: " + yq(h[0]) + "\n    ip: " + h[1] + "\n")
 		}
 	}
-	if len(c.GlobalHosts) > 0 {
-		sb.WriteString("hosts:\n")
-		for _, h := range c.GlobalHosts {
-			sb.WriteString("- name: " + yq(h[0]) + "\n  ip: " + h[1] + "\n")
-		}
-	}
-	return sb.String()
 }
 
 func (c labCfg) keepOn() bool {
@@ -197,26 +209,87 @@ func labNewInst() *labInst {
 
 func (in *labInst) ip(d int) string { return in.net.ip(in.c, d) }
 
-// start launches the service described by cfg through the product's own
-// configuration path (yaml mode).
+// start launches the service described by cfg exactly as main does: the
+// generated YAML is written to a file and the product's own startProxies (the
+// CLI action) runs with a context that carries --config and the logging flags;
+// it never returns on success (main's keep-alive loop), so it gets its own
+// goroutine and readiness is probed from outside, with barriers.
 func (in *labInst) start(cfg labCfg) error {
 	in.cfg = cfg
-	conf, err := loadConfigFromReader(strings.NewReader(cfg.YAML()))
-	if err != nil {
-		return fmt.Errorf("configuration rejected: %v\n%s", err, cfg.YAML())
+	dir := os.Getenv("VERIF_OUT")
+	if dir == "" {
+		dir = os.TempDir()
 	}
-	for _, proxy := range conf.Proxies {
-		route := createPreConfigRoute(proxy)
-		resolver := createPreConfigHostResolver(conf.Hosts, proxy)
-		if err := startProxy(proxy, route, resolver); err != nil {
-			return fmt.Errorf("startProxy: %v", err)
-		}
+	yml := filepath.Join(dir, fmt.Sprintf("sipproxy-%d-%d.yaml", os.Getpid(), in.c))
+	if err := os.WriteFile(yml, []byte(cfg.YAML()), 0o644); err != nil {
+		return err
 	}
+	set := flag.NewFlagSet("sipproxy", flag.ContinueOnError)
+	set.String("config", yml, "")
+	set.String("log-file", "", "")
+	set.String("log-level", "Fatal", "")
+	set.Int("log-size", 50, "")
+	set.Int("log-backups", 10, "")
+	set.String("log-format", "text", "")
+	set.Int("profiling-port", 0, "")
+	errc := make(chan error, 1)
+	go func() { errc <- startProxies(cli.NewContext(nil, set, nil)) }()
 	s, err := in.hub.udpEP("sink", in.ip(250), 5999)
 	if err != nil {
 		return err
 	}
 	in.sink = s
+	return in.waitReady(errc)
+}
+
+// waitReady sends barriers to every UDP listener of the configuration (TCP-only
+// entries: connects) until each has answered once.
+func (in *labInst) waitReady(errc <-chan error) error {
+	probe, err := in.hub.udpEP("ready-probe", in.ip(250), 5998)
+	if err != nil {
+		return err
+	}
+	listens := append([]labListenCfg{}, in.cfg.Listens...)
+	for _, x := range in.cfg.More {
+		listens = append(listens, x.Listens...)
+	}
+	for _, l := range listens {
+		budget := newPatience(30 * time.Second)
+		for up := false; !up; {
+			select {
+			case err := <-errc:
+				return fmt.Errorf("startProxies returned: %v\n%s", err, in.cfg.YAML())
+			default:
+			}
+			if l.UDPPort > 0 {
+				in.barrierN++
+				n := in.barrierN
+				probe.sendUDP(l.Addr, l.UDPPort, in.barrierBytes(n))
+				for {
+					r, ok, _ := patientRecvP(in.hub.rx, budget, 30*time.Millisecond)
+					if !ok {
+						break
+					}
+					if bn, isb := isBarrier(r); isb && bn == n {
+						up = true
+						break
+					}
+				}
+			} else {
+				c, err := net.DialTimeout("tcp", l.Addr+":"+strconv.Itoa(l.TCPPort), time.Second)
+				if err == nil {
+					c.Close()
+					up = true
+				} else {
+					time.Sleep(10 * time.Millisecond)
+				}
+			}
+			if !up && budget.spent() {
+				return fmt.Errorf("listener %s (udp %d, tcp %d) did not come up within 30 s", l.Addr, l.UDPPort, l.TCPPort)
+			}
+		}
+	}
+	in.hub.drain()
 	return nil
 }
 
@@ -261,35 +334,17 @@ func (in *labInst) startBin(cfg labCfg, race bool, env ...string) error {
 		close(in.binExited)
 	}()
 	// wait until the listeners are up
-	deadline := time.Now().Add(20 * time.Second)
-	for _, l := range cfg.Listens {
-		if l.TCPPort == 0 {
-			continue
-		}
-		for {
-			c, err := net.DialTimeout("tcp", l.Addr+":"+strconv.Itoa(l.TCPPort), time.Second)
-			if err == nil {
-				c.Close()
-				break
-			}
-			select {
-			case <-in.binExited:
-				return fmt.Errorf("the binary exited during start-up: %s (log %s)", in.binStatus, in.binLog)
-			default:
-			}
-			if time.Now().After(deadline) {
-				return fmt.Errorf("the binary did not open %s:%d within 20 s", l.Addr, l.TCPPort)
-			}
-			time.Sleep(20 * time.Millisecond)
-		}
-	}
-	time.Sleep(100 * time.Millisecond) // UDP-only listeners
 	s, err := in.hub.udpEP("sink", in.ip(250), 5999)
 	if err != nil {
 		return err
 	}
 	in.sink = s
-	return nil
+	errc := make(chan error, 1)
+	go func() {
+		<-in.binExited
+		errc <- fmt.Errorf("the binary exited during start-up: %s (log %s)", in.binStatus, in.binLog)
+	}()
+	return in.waitReady(errc)
 }
 
 // binAlive reports whether the subprocess is still running ("" = yes).
